@@ -94,6 +94,60 @@ type vc12Case struct {
 
 	// asked are earlier queries to draw repeats from.
 	asked []vc12Q
+
+	// hpAlt, per hash-prefix filter, is the readable prefix of the last list
+	// whose refresh the filter rejected, until its next successful refresh;
+	// hpAltEpoch is when.  This property does not decide whether a rejected
+	// refresh leaves the old list or the readable part in place (C13 does):
+	// the list-version model accepts either, the twin comparison needs
+	// neither.
+	hpAlt      [3]*[]string
+	hpAltEpoch [3]int
+
+	// modelOff is set between a rejected storage refresh and the next
+	// successful one: which of the storage-managed sources were replaced is
+	// C13's question, so only the twin comparison is made.
+	modelOff bool
+
+	// be is the backend part's state, if any.
+	be *vc12BackendState
+
+	// reqObj are the request objects of the two sides, reused for every query.
+	reqObj [2]*filter.Request
+}
+
+// modelWorlds returns the list versions the storages may be serving.
+func (c *vc12Case) modelWorlds() (ws []*vc12World) {
+	ws = []*vc12World{c.w}
+	for k, alt := range c.hpAlt {
+		if alt == nil {
+			continue
+		}
+
+		for _, w := range ws[:len(ws):len(ws)] {
+			a := w.clone()
+			a.HP[k] = slices.Clone(*alt)
+			ws = append(ws, a)
+		}
+	}
+
+	return ws
+}
+
+// modelRequest is vc12ModelRequest over the versions that may be served.
+func (c *vc12Case) modelRequest(r *vc12Req, host string, qt uint16, res vc12Res) (why string) {
+	if c.modelOff {
+		return ""
+	}
+
+	for _, w := range c.modelWorlds() {
+		why = vc12ModelRequest(w, c.conf, r, host, qt, res)
+		if why == "" {
+			return ""
+		}
+	}
+
+	return why
 }
 
 type vc12Last struct {
@@ -112,7 +166,8 @@ func (c *vc12Case) logf(format string, args ...any) {
 }
 
 func (c *vc12Case) history() string {
-	return fmt.Sprintf("hash-prefix replacement hosts %v cache count %d\n%s", c.conf.HPRepl, c.conf.CacheCount, strings.Join(c.hist, "\n"))
+	return fmt.Sprintf("hash-prefix replacement hosts %v from file %v cache count %d\n%s", c.conf.HPRepl, c.conf.HPFile, c.conf.CacheCount,
+		strings.Join(c.hist, "\n"))
 }
 
 func (c *vc12Case) failf(format string, args ...any) {
@@ -141,16 +196,23 @@ func vc12NewCase(t *rapid.T, st *vstat.Stats, srv *vc12Srv, base string, nClient
 		c.conf.HPRepl[k] = rapid.SampledFrom(vc12Repls).Draw(t, "hprepl")
 	}
 
-	c.w = vc12DrawWorld(t)
-	c.w.publishStorage(srv)
-	for k := range c.w.HP {
-		c.w.publishHP(srv, k)
-	}
-
 	var err error
 	c.dir, err = os.MkdirTemp(base, "case-")
 	if err != nil {
 		vc12Inconclusive(t, "temporary directory: %v", err)
+	}
+
+	c.w = vc12DrawWorld(t)
+	c.w.publishStorage(srv)
+	for k := range c.w.HP {
+		c.conf.HPFile[k] = rapid.IntRange(0, 3).Draw(t, "hpfile") == 0
+		c.conf.HPFilePath[k] = ""
+		if c.conf.HPFile[k] {
+			c.conf.HPFilePath[k] = filepath.Join(c.dir, fmt.Sprintf("hpsrc%d", k))
+		}
+
+		srv.mirror(fmt.Sprintf("/hp/%d", k), c.conf.HPFilePath[k])
+		c.w.publishHP(srv, k)
 	}
 
 	c.cached, err = vc12NewSide(srv, c.dir+"/cached", c.conf, true)
@@ -184,6 +246,19 @@ func (c *vc12Case) close() { _ = os.RemoveAll(c.dir) }
 
 func (c *vc12Case) cloners() [2]*dnsmsg.Cloner {
 	return [2]*dnsmsg.Cloner{c.cached.cloner, c.twin.cloner}
+}
+
+// pooledRequest fills the one request object of the side, as mainmw fills the
+// object it takes from its pool: every field is overwritten, and the message
+// is taken out again after the call.  Nothing may hold on to it.
+func (c *vc12Case) pooledRequest(q *vc12Q, r *vc12Req, side int) *filter.Request {
+	if c.reqObj[side] == nil {
+		c.reqObj[side] = &filter.Request{}
+	}
+
+	*c.reqObj[side] = *q.request(r, side)
+
+	return c.reqObj[side]
 }
 
 // vc12Scribble does to a message what the rest of the pipeline is free to do
@@ -281,6 +356,12 @@ func (c *vc12Case) refreshStorage() {
 	}
 
 	nw.publishStorage(c.srv)
+	if rapid.IntRange(0, 5).Draw(t, "storagereject") == 0 {
+		c.rejectedStorage(nw)
+
+		return
+	}
+
 	c.srv.takeHits()
 	for _, sd := range []*vc12Side{c.cached, c.twin} {
 		if err := sd.refreshStorage(); err != nil {
@@ -304,6 +385,7 @@ func (c *vc12Case) refreshStorage() {
 
 	c.checkErrs("storage refresh")
 	c.w = nw
+	c.modelOff = false
 	c.epoch++
 	c.logf("REFRESH storage after changing %v: idx=%v lists=%v svcs=%v ss=%v", what, nw.Idx, nw.Lists, nw.Svcs, nw.SS)
 	c.st.Class("op-refresh-storage")
@@ -313,6 +395,12 @@ func (c *vc12Case) refreshStorage() {
 func (c *vc12Case) refreshHP() {
 	t := c.t
 	k := rapid.IntRange(0, 2).Draw(t, "hp")
+	if rapid.IntRange(0, 3).Draw(t, "hpreject") == 0 {
+		c.rejectedHP(k)
+
+		return
+	}
+
 	nw := c.w.clone()
 	switch hosts := nw.HP[k]; rapid.IntRange(0, 3).Draw(t, "hpmut") {
 	case 0:
@@ -338,12 +426,13 @@ func (c *vc12Case) refreshHP() {
 		}
 	}
 
-	if p := fmt.Sprintf("/hp/%d", k); c.srv.takeHits()[p] != 2 {
+	if p := fmt.Sprintf("/hp/%d", k); c.srv.takeHits()[p] != 2 && !c.conf.HPFile[k] {
 		vc12Inconclusive(t, "refresh did not download %s twice (staleness 0 not honoured?)", p)
 	}
 
 	c.checkErrs("hash-prefix refresh")
 	c.w = nw
+	c.hpAlt[k] = nil
 	c.epoch++
 	for key := range c.hpSeen {
 		if strings.HasPrefix(key, fmt.Sprintf("%d|", k)) {
@@ -353,6 +442,128 @@ func (c *vc12Case) refreshHP() {
 
 	c.logf("REFRESH hash list %d (%s): %v", k, vc12HPIDs[k], nw.HP[k])
 	c.st.Class("op-refresh-hp")
+	if c.conf.HPFile[k] {
+		c.st.Class("op-refresh-hp-from-file")
+	}
+}
+
+// rejectedHP serves hash list k in a form the filter cannot take and refreshes
+// it on both sides.  Whatever the filter then serves without its result cache,
+// it must serve with it.
+func (c *vc12Case) rejectedHP(k int) {
+	t := c.t
+	old := c.w.HP[k]
+
+	// The readable part differs from the current list in a name that has been
+	// asked, if there is one, so that a warm cache entry is at stake.
+	prefix := slices.Clone(old)
+	var cand []string
+	for _, q := range c.asked {
+		if vc12Filterable(q.QT) && slices.Contains(vc12Hosts, q.Host) && !slices.Contains(cand, q.Host) {
+			cand = append(cand, q.Host)
+		}
+	}
+
+	if len(cand) == 0 {
+		cand = vc12Hosts
+	}
+
+	h := rapid.SampledFrom(cand).Draw(t, "toggle")
+	if i := slices.Index(prefix, h); i >= 0 {
+		prefix = slices.Delete(prefix, i, i+1)
+	} else {
+		prefix = append(prefix, h)
+	}
+
+	tail := rapid.SampledFrom(vc12Hosts).Draw(t, "tail")
+	path := fmt.Sprintf("/hp/%d", k)
+	kinds := []string{"long-line-after-prefix", "long-line-after-prefix", "long-line-first", "empty-body", "http-500"}
+	if c.conf.HPFile[k] {
+		// An empty file is an empty list, and there is no transfer to fail.
+		kinds = kinds[:3]
+	}
+
+	kind := rapid.SampledFrom(kinds).Draw(t, "hpfault")
+	long := strings.Repeat("x", 70_000)
+	var alt *[]string
+	switch kind {
+	case "long-line-after-prefix":
+		c.srv.set(path, "# c12 hp\n"+strings.Join(prefix, "\n")+"\n"+long+"\n"+tail+"\n")
+		alt = &prefix
+	case "long-line-first":
+		c.srv.set(path, long+"\n"+strings.Join(prefix, "\n")+"\n")
+		alt = &[]string{}
+	case "empty-body":
+		c.srv.set(path, "")
+	default:
+		c.srv.fail(path, 500)
+	}
+
+	for _, sd := range []*vc12Side{c.cached, c.twin} {
+		if err := sd.refreshHP(k); err == nil {
+			vc12Inconclusive(t, "hash-prefix refresh accepted a list served as %s (cached=%t)", kind, sd.cached)
+		}
+
+		// The refusal is reported to the error collector, as it should be.
+		sd.errs.take()
+	}
+
+	c.srv.takeHits()
+	c.hpAlt[k], c.hpAltEpoch[k] = alt, c.epoch
+	c.epoch++
+	c.logf("REJECTED REFRESH of hash list %d (%s) served as %s: readable part %v, current list %v", k, vc12HPIDs[k], kind, prefix, old)
+	c.st.Class("op-refresh-hp-rejected", "hp-rejected-"+kind)
+}
+
+// rejectedStorage serves one of the storage-managed documents in a form its
+// consumer cannot take, next to ordinary changes, and refreshes both storages.
+func (c *vc12Case) rejectedStorage(nw *vc12World) {
+	t := c.t
+	kind := rapid.SampledFrom([]string{"index-bad-json", "list-empty-body", "list-http-500", "services-bad-json", "services-bad-id",
+		"safesearch-empty-body"}).Draw(t, "storagefault")
+	switch kind {
+	case "index-bad-json":
+		c.srv.set("/idx", `{"filters":[{"filterKey":"rl_one",`)
+	case "list-empty-body", "list-http-500":
+		id := rapid.SampledFrom(vc12ListIDs).Draw(t, "faultlist")
+		if !slices.Contains(nw.Idx, id) {
+			nw.Idx = append(nw.Idx, id)
+			nw.publishStorage(c.srv)
+		}
+
+		if kind == "list-empty-body" {
+			c.srv.set("/rl/"+id, "")
+		} else {
+			c.srv.fail("/rl/"+id, 500)
+		}
+
+		// The next publication carries the list as it was.
+		nw.Lists[id] = slices.Clone(c.w.Lists[id])
+	case "services-bad-json":
+		c.srv.set("/svc", `{"blocked_services":[{"id":"svc_one","rules":[`)
+		nw.Svcs = c.w.clone().Svcs
+	case "services-bad-id":
+		c.srv.set("/svc", `{"blocked_services":[{"id":"svc/one","rules":["||a.test^"]}]}`)
+		nw.Svcs = c.w.clone().Svcs
+	default:
+		i := rapid.IntRange(0, 1).Draw(t, "faultss")
+		c.srv.set(fmt.Sprintf("/ss/%d", i), "")
+		nw.SS[i] = slices.Clone(c.w.SS[i])
+	}
+
+	for _, sd := range []*vc12Side{c.cached, c.twin} {
+		// Whether the refresh as a whole reports the fault depends on the
+		// document; both sides are given the same.
+		_ = sd.refreshStorage()
+		sd.errs.take()
+	}
+
+	c.srv.takeHits()
+	c.w = nw
+	c.modelOff = true
+	c.epoch++
+	c.logf("REJECTED storage refresh (%s) while changing to idx=%v lists=%v svcs=%v ss=%v", kind, nw.Idx, nw.Lists, nw.Svcs, nw.SS)
+	c.st.Class("op-refresh-storage-rejected", "storage-rejected-"+kind)
 }
 
 // customUpdate is a profile synchronisation that touches one client: the
@@ -540,16 +751,28 @@ func (c *vc12Case) query(exchange bool) {
 	vc12DrawFlags(t, &q, false)
 
 	ctx := context.Background()
-	gotReq := q.request(r, 0)
-	fGot := c.cached.strg.ForConfig(ctx, r.config())
+	// A profile or device with filtering switched off gets the nil
+	// configuration, and with it the empty filter.
+	cfg := r.config()
+	disabled := rapid.IntRange(0, 24).Draw(t, "filteringoff") == 0
+	if disabled {
+		cfg = nil
+	}
+
+	gotReq := c.pooledRequest(&q, r, 0)
+	gotDNS := gotReq.DNS
+	fGot := c.cached.strg.ForConfig(ctx, cfg)
 	gotRaw, err := fGot.FilterRequest(ctx, gotReq)
+	gotReq.DNS = nil
 	if err != nil {
 		c.failf("cache-enabled storage: FilterRequest(%s by %s): %v", &q, r.Name, err)
 	}
 
 	c.twin.purge()
-	fWant := c.twin.strg.ForConfig(ctx, r.config())
-	wantRaw, err := fWant.FilterRequest(ctx, q.request(r, 1))
+	fWant := c.twin.strg.ForConfig(ctx, cfg)
+	wantReq := c.pooledRequest(&q, r, 1)
+	wantRaw, err := fWant.FilterRequest(ctx, wantReq)
+	wantReq.DNS = nil
 	if err != nil {
 		c.failf("reference storage: FilterRequest(%s by %s): %v", &q, r.Name, err)
 	}
@@ -557,9 +780,37 @@ func (c *vc12Case) query(exchange bool) {
 	got, want := vc12Render(gotRaw), vc12Render(wantRaw)
 	c.logf("QUERY %s (%s) %s -> %s", r.Name, r.params(), &q, got.verdict())
 	c.checkErrs("query")
+	if disabled {
+		if got.Kind != "nil" || want.Kind != "nil" {
+			c.failf("%s asked %s with filtering off: verdicts %s and %s", r.Name, &q, got.verdict(), want.verdict())
+		}
+
+		c.release(got, gotDNS)
+		c.st.Case("", "filtering-off-nil-config")
+
+		return
+	}
 
 	key := fmt.Sprintf("%s/%d/%d/req", q.Host, q.QT, q.QC)
+	atStake := false
+	for k, alt := range c.hpAlt {
+		if alt == nil || !r.hpEnabled(k) || !vc12Filterable(q.QT) || vc12HashMatch(c.w.HP[k], q.Host) == vc12HashMatch(*alt, q.Host) {
+			continue
+		}
+
+		for _, ep := range c.seen[key] {
+			atStake = atStake || ep <= c.hpAltEpoch[k]
+		}
+	}
+
 	nt, classes := c.classify(ri, key, want)
+	if atStake {
+		classes = append(classes, "key-asked-before-rejected-hp-refresh-that-changes-it")
+	}
+
+	if c.be != nil && ri < len(c.be.used) {
+		c.be.used[ri] = c.be.used[ri] || r.customActive()
+	}
 	classes = append(classes, near)
 	switch q.Host {
 	case "":
@@ -603,7 +854,7 @@ func (c *vc12Case) query(exchange bool) {
 		c.failf("%s asked %s: %s", r.Name, &q, why)
 	}
 
-	if why := vc12ModelRequest(c.w, c.conf, r, q.Host, q.QT, got); why != "" {
+	if why := c.modelRequest(r, q.Host, q.QT, got); why != "" {
 		c.failf("answer does not follow from the current list versions: %s asked %s -> %s: %s", r.Name, &q, got.verdict(), why)
 	}
 
@@ -612,7 +863,7 @@ func (c *vc12Case) query(exchange bool) {
 		c.hpSeen[hk] = append(c.hpSeen[hk], vc12HPSeen{msg: want.msg.Copy(), who: r.Name, params: r.params() + " " + q.flags()})
 	}
 
-	c.release(got, gotReq.DNS)
+	c.release(got, gotDNS)
 	c.st.Case(nt, classes...)
 
 	if exchange && want.Kind != "modreq" {
@@ -675,7 +926,7 @@ func (c *vc12Case) response(ri int, q *vc12Q, fGot, fWant filter.Interface, reqR
 		c.failf("result caches are visible: response to %s with answers %q\n  with caches:    %s\n  without caches: %s", r.Name, ans, got, want)
 	}
 
-	if why := vc12ModelResponse(c.w, r, items, got); why != "" {
+	if why := vc12ModelResponse(c.w, r, items, got); why != "" && !c.modelOff {
 		c.failf("answer does not follow from the current list versions: response to %s with answers %q -> %s: %s", r.Name, ans, got.verdict(), why)
 	}
 
@@ -698,7 +949,9 @@ func TestVerifC12Histories(t *testing.T) {
 		"src-custom", "src-rulelist", "src-service", "src-safesearch", "src-hashprefix",
 		"response-filtered", "op-refresh-storage", "op-refresh-hp", "op-custom-change", "op-custom-touch",
 		"hp-key-built-for-other-params", "near-miss-qtype", "near-miss-class", "near-miss-host", "host-root", "host-off-pool",
-		"exchange-request-passed-response-filtered", "exchange-request-allowed-response-filtered", "exchange-both-stages-filtered")
+		"exchange-request-passed-response-filtered", "exchange-request-allowed-response-filtered", "exchange-both-stages-filtered",
+		"op-refresh-hp-rejected", "op-refresh-storage-rejected", "key-asked-before-rejected-hp-refresh-that-changes-it",
+		"op-refresh-hp-from-file", "filtering-off-nil-config")
 	st.Finish(t)
 
 	srv := vc12NewSrv(t)
